@@ -28,6 +28,10 @@ pub fn defs() -> String { format!("{}\n{}", T_DEF, U_DEF) }
 /// OUTER JOIN must still be NULL (not the column's DEFAULT)
 pub const U_DEF_DFLT: &str = "CREATE TABLE u(row = '^#([a-z]+)?;(-?[0-9]+)?;([^;]+)?;([^;]+)?$', row[1] => k TEXT, row[2] => v INT DEFAULT 7, row[3] => y TEXT DEFAULT 'nobody', row[4] => r REAL);";
 pub fn defs_dflt() -> String { format!("{}\n{}", T_DEF, U_DEF_DFLT) }
+/// the joined table with a NOT NULL column: a line of the joined file on which it is NULL is no row (and must not crash the load)
+pub const U_DEF_NN: &str = "CREATE TABLE u(row = '^#([a-z]+)?;(-?[0-9]+)?;([^;]+)?;([^;]+)?$', row[1] => k TEXT, row[2] => v INT, row[3] => y TEXT NOT NULL, row[4] => r REAL);";
+/// the joined table with an array column: the NULL padding of an OUTER JOIN is NULL there too (not an empty array)
+pub const U_DEF_ARR: &str = "CREATE TABLE u(row = '^#([a-z]+)?;(-?[0-9]+)?;([^;]+)?;([^;]+)?$', row[1] => k TEXT, row[2] => v INT, row[3] => y TEXT, row[4] => r REAL, row[2], row[2] => a INT[]);";
 
 const KEYS: &[&str] = &["a", "b", "c", "ab"];
 const REALS: &[&str] = &["0.5", "0", "-0.0", "1e3", "1000", "nan", "x", "3"];
@@ -130,7 +134,8 @@ pub fn gen_stmt(rng: &mut Rng) -> GenStmt {
             if rng.chance(1, 4) { tail.push_str(&format!(" WHERE {}", gen_sql_expr(rng, 1, Ty::Bool, &sch, true))); }
             if let Some(g) = group { tail.push_str(&format!(" GROUP BY {}", g)); }
             if rng.chance(1, 5) { tail.push_str(&format!(" HAVING COUNT(*) {} {}", rng.pick(&[">", ">=", "="]), rng.below(3))); }
-            GenStmt { head: format!("SELECT {}", items.join(", ")), tail, kind, refs: None }
+            // one aggregate statement in four is SELECT DISTINCT (DISTINCT acts on the printed table, never on the pairs counted)
+            GenStmt { head: format!("SELECT {}{}", if rng.chance(1, 4) { "DISTINCT " } else { "" }, items.join(", ")), tail, kind, refs: None }
         }
         Kind::Distinct => { let r = cols(rng); GenStmt { head: format!("SELECT DISTINCT {}", proj(&r)), tail: String::new(), kind, refs: None } }
         Kind::Limit => {
@@ -261,12 +266,19 @@ pub fn run(p: &Params) -> Run {
     let defs_plain = defs.clone();
     let defs_d = defs_dflt();
     let u_dflt = crate::runq::parse_tables(&defs_d).expect("C05 definitions with DEFAULT").get("u").unwrap().clone();
+    let defs_nn = format!("{}\n{}", T_DEF, U_DEF_NN);
+    let u_nn = crate::runq::parse_tables(&defs_nn).expect("C05 definitions with NOT NULL").get("u").unwrap().clone();
+    let defs_arr = format!("{}\n{}", T_DEF, U_DEF_ARR);
+    let u_arr = crate::runq::parse_tables(&defs_arr).expect("C05 definitions with an array column").get("u").unwrap().clone();
     for i in 0..n {
         // one case in five: the joined table declares DEFAULT values
         let dflt = i % 5 == 3;
-        let defs = if dflt { defs_d.clone() } else { defs_plain.clone() };
-        let u = if dflt { u_dflt.clone() } else { u_plain.clone() };
+        let variant = if dflt { 1 } else if i % 10 == 6 { 2 } else if i % 10 == 8 { 3 } else { 0 };
+        let defs = match variant { 1 => defs_d.clone(), 2 => defs_nn.clone(), 3 => defs_arr.clone(), _ => defs_plain.clone() };
+        let u = match variant { 1 => u_dflt.clone(), 2 => u_nn.clone(), 3 => u_arr.clone(), _ => u_plain.clone() };
         if dflt { run.count("joined-table-with-defaults"); }
+        if variant == 2 { run.count("joined-table-with-not-null"); }
+        if variant == 3 { run.count("joined-table-with-array"); }
         let js = gen_join_spec(&mut rng);
         let st = gen_stmt(&mut rng);
         // inputs: few keys so that duplicates, fan-out and absent keys are all frequent
@@ -275,7 +287,12 @@ pub fn run(p: &Params) -> Run {
         let null_main = *rng.pick(&[5u64, 15, 30, 60]);
         let null_joined = *rng.pick(&[5u64, 15, 30, 60]);
         let main: Vec<String> = (0..nm).map(|_| gen_t_line(&mut rng, null_main)).collect();
-        let joined: Vec<String> = (0..nj).map(|_| gen_u_line(&mut rng, null_joined)).collect();
+        let mut joined: Vec<String> = (0..nj).map(|_| gen_u_line(&mut rng, null_joined)).collect();
+        // identical lines are separate partners (one in three joined files repeats some of its lines)
+        if !joined.is_empty() && rng.chance(1, 3) {
+            for _ in 0..1 + rng.below(2) { let l = joined[rng.below(joined.len())].clone(); let at = rng.below(joined.len() + 1); joined.insert(at, l); }
+            run.count("joined-file-with-repeated-lines");
+        }
         let files = split_files(&mut rng, &main);
         let joined_bytes = join_lines(&joined);
         std::fs::write(&jpath, &joined_bytes).unwrap();
